@@ -20,7 +20,7 @@ EVID = os.path.join(ROOT, "evidence") if REPO == "/repo" else os.path.join(BUILD
 REPLAYS = os.path.join(EVID, "replays")
 NCPU = os.cpu_count() or 4
 GUARD = "MANAGARM_FRIGG_VERIF"
-MAX_CRASHES_PER_SHARD = 6
+MAX_CRASHES_PER_SHARD = 4
 PER_FILE_TIMEOUT = int(os.environ.get("VERIF_COQC_TIMEOUT", "900"))
 
 STD_AXIOMS = {  # axioms declared by the standard library itself; allowed if named in the trusted base
@@ -362,7 +362,7 @@ def run_cases(exe, cases, shards=None, timeout=600, args=(), env=None):
     e = dict(SAN_ENV)
     # per-case CPU-time watchdog inside the harness (lib/vharness.hpp): short for ordinary script cases, effectively the
     # shard's wall timeout for runs whose caller announced long-running cases (stress, self-enumeration) by a long timeout
-    e["VH_CASE_CPU_SECONDS"] = str(60 if timeout <= 600 else int(timeout) * 16)
+    e["VH_CASE_CPU_SECONDS"] = str(30 if timeout <= 600 else int(timeout) * 16)
     if env:
         e.update(env)
     shards = shards or min(NCPU, max(1, len(cases) // 8))
